@@ -120,7 +120,13 @@ func main() {
 	// Record, SideChainPow) colliding on one outpoint in the mempool
 	history(run, st, sh, next(), rng.Fork(), func(h *ledgerh.H) { h.CorpusTypedPool() })
 
-	n := run.N(56, 3000)
+	// ---- corpus 5: several inputs on one parent transaction, unspent ones
+	// before / after / around an already spent one, in blocks and in the pool
+	history(run, st, sh, next(), rng.Fork(), func(h *ledgerh.H) { h.CorpusSiblings() })
+	// ---- corpus 6: a reorganisation in the middle of a cache-missing transaction lookup
+	history(run, st, sh, next(), rng.Fork(), func(h *ledgerh.H) { h.CorpusRacyLookup() })
+
+	n := run.N(54, 3000)
 	for i := 0; i < n; i++ {
 		steps := 8 + rng.Intn(14)
 		if run.Thorough() {
